@@ -69,6 +69,8 @@ def independent_verify(url_or_params, cert_i):
     rp = raw_params(url_or_params) if isinstance(url_or_params, str) else url_or_params
     d = dict(rp)
     typ = "SAMLRequest" if "SAMLRequest" in d else "SAMLResponse"
+    if "SAMLRequest" in d and "SAMLResponse" in d:
+        return False        # two messages in one query: the signature cannot say which of them it is about
     if "Signature" not in d or "SigAlg" not in d or typ not in d:
         return False
     alg = up.unquote_plus(d["SigAlg"])
@@ -208,6 +210,11 @@ def run_inputs(case, ctx, viol, counters, sigs):
     m = dict(params); m["Signature"] = m["Signature"][:-8] + "AAAAAA=="; muts["signature-changed"] = m
     m = dict(params); m["Signature"] = ""; muts["signature-empty"] = m
     m = dict(params); m[("SAMLRequest" if is_resp else "SAMLResponse")] = m.pop(typ); muts["message-type-swapped"] = m
+    # a second message parameter next to the signed one (a receiver that looks for the other kind would read the unsigned one)
+    other_typ = "SAMLRequest" if is_resp else "SAMLResponse"
+    m = dict(params); m[other_typ] = params[typ]; muts["other-message-parameter-added-copy"] = m
+    m = dict(params); m[other_typ] = "AAAA"; muts["other-message-parameter-added"] = m
+    m = dict([(other_typ, "AAAA")] + list(params.items())); muts["other-message-parameter-added-first"] = m
     verifier = ctx.ents["idp" if case["who"] == "sp" else "sp"]
     for name, mp in muts.items():
         # independent verdict over what a receiver would reconstruct from the decoded parameters
